@@ -222,6 +222,39 @@ theorem update_closed_form_nonneg (b : List (K × K)) (h : List (List (K × K)))
     run initAcc (b :: h) = Spec.acc (b :: h).flatten :=
   update_closed_form _ (runningCountsNe_of_nonneg b h hw hb) (by simp)
 
+/-- **Split invariance under the property's quantifier**: weights ≥ 0, both first batches of
+positive total weight, same multiset of weighted samples ⇒ same final state. -/
+theorem split_invariant_nonneg (b₁ b₂ : List (K × K)) (h₁ h₂ : List (List (K × K)))
+    (hp : (b₁ :: h₁).flatten.Perm (b₂ :: h₂).flatten)
+    (w₁ : ∀ c ∈ b₁ :: h₁, ∀ p ∈ c, 0 ≤ p.1) (w₂ : ∀ c ∈ b₂ :: h₂, ∀ p ∈ c, 0 ≤ p.1)
+    (p₁ : 0 < Spec.count b₁) (p₂ : 0 < Spec.count b₂) :
+    run initAcc (b₁ :: h₁) = run initAcc (b₂ :: h₂) :=
+  split_invariant _ _ hp (runningCountsNe_of_nonneg b₁ h₁ w₁ p₁) (runningCountsNe_of_nonneg b₂ h₂ w₂ p₂)
+    (by simp) (by simp)
+/-- **Integer weight = repetition under the property's quantifier**: natural-number weights, first
+batch of positive total weight — nothing else is assumed. -/
+theorem weight_is_repetition_nonneg (b : List (ℕ × K)) (h : List (List (ℕ × K)))
+    (hb : 0 < Spec.count (weighted b)) :
+    run initAcc ((b :: h).map weighted) = run initAcc ((b :: h).map repeated) := by
+  have hb' : 0 < Spec.count (repeated b) := by
+    have := congrArg Acc.count (weight_is_repetition_spec b)
+    simp only [Spec.acc] at this
+    rw [← this]; exact hb
+  refine weight_is_repetition (b :: h) ?_ ?_ (by simp)
+  · refine runningCountsNe_of_nonneg (weighted b) (h.map weighted) ?_ hb
+    intro c hc p hp
+    simp only [← List.map_cons, List.mem_map] at hc
+    obtain ⟨c', _, rfl⟩ := hc
+    simp only [weighted, List.mem_map] at hp
+    obtain ⟨q, _, rfl⟩ := hp
+    exact Nat.cast_nonneg _
+  · refine runningCountsNe_of_nonneg (repeated b) (h.map repeated) ?_ hb'
+    intro c hc p hp
+    simp only [← List.map_cons, List.mem_map] at hc
+    obtain ⟨c', _, rfl⟩ := hc
+    simp only [repeated, List.mem_flatMap, List.mem_replicate] at hp
+    obtain ⟨q, _, _, rfl⟩ := hp
+    exact zero_le_one
 /-- normalise then denormalise returns the input (no clipping) -/
 theorem normalize_denormalize (x μ σ : K) (hσ : σ ≠ 0) :
     denormalize (normalize none x μ σ) μ σ = x := by
